@@ -215,6 +215,27 @@ class C10(object):
         return (300, 20.0)
 
     def gen(self, rng, tier, k):
+        if k % 32 == 7:
+            # one lazily computed future named several times in one yield (and again later): its
+            # provider runs once, every occurrence and every later read gives the same outcome
+            from .. import gen as g
+            kinds = 2
+            fail = rng.random() < 0.3
+            lz = ["lazy", "fail" if fail else "ok", "lz%d" % rng.randint(0, 9)]
+            elems = [["ref", 0], ["ref", 0]]
+            if rng.random() < 0.6:
+                elems.insert(rng.randint(0, 2), ["call", 1, []])
+            if rng.random() < 0.4:
+                elems.append(["ref", 0])
+            first = [["y", [rng.choice(["t", "l"]), elems]]]
+            if fail:
+                first = [["try", first, "all", []]]
+            steps = [["c", lz]] + first + [["y", ["item", 0, 1]], ["y", ["ref", 0]] if not fail else ["y", ["item", 1, 2]]]
+            spec = {"templates": [{"kind": "fn", "steps": steps}, {"kind": "fn", "steps": [["y", ["item", rng.randint(0, 1), 0]]]}],
+                    "root": {"tmpl": 0, "conv": rng.choice(["call", "value", "wrapped"])}, "kinds": kinds, "svs": 1,
+                    "yield_only": True, "reentry": False, "faults": {"items": {}, "flushes": {}, "ctx": {}}, "prio": g.gen_prio(rng, kinds),
+                    "outcome_rate": 1.0, "probe_seed": rng.randint(0, 10 ** 6)}
+            return {"kind": "sim", "spec": spec}
         if k % 4 == 3:
             # inside running computations: computed futures are re-read at seeded trace points
             from .. import gen as g
